@@ -5,6 +5,9 @@ CONSTANTS
   StoreIn = FALSE
   InPlace = FALSE
   ReadEdits = TRUE
+  FirstWriteKeeps = FALSE
+  HookEditsOld = FALSE
+  InitKinds = {"absent", "present"}
   NCases = 0
   MinOps = 1
   MaxOps = 1
